@@ -110,5 +110,10 @@ class ReplayDataset(IterableDataset):
         self.batch_size = batch_size
 
     def __iter__(self) -> Iterator:
-        samples = self.buffer.sample(self.batch_size)
+        # (a prioritised buffer is sampled with the caller's current beta)
+        beta = getattr(self, "beta", None)
+        if beta is not None:
+            samples = self.buffer.sample(self.batch_size, beta)
+        else:
+            samples = self.buffer.sample(self.batch_size)
         yield samples
